@@ -298,3 +298,30 @@ def preamble_floods(r):
         out.append(unit * n + f)
         out.append(unit * n)
     return out
+
+
+def overlap_cases(r):
+    """three candidates sharing bytes: a complete candidate A that fails its checksum, a valid frame B that starts
+    inside A's announced extent, and a valid frame C nested in B's payload that starts exactly where A's
+    announced extent ends (and neighbours of that arrangement: C one byte earlier / later, A valid, B damaged)"""
+    out = []
+    for LA in (0, 1, 2, 5, 9):
+        for gap in (0, 1, 2):
+            if gap > LA:
+                continue
+            j = LA - gap                      # offset of C inside B's payload
+            for dj in (0, 1, -1):
+                jj = j + dj
+                if jj < 0:
+                    continue
+                C = mk_frame(payload_for(r, r.choice([0, 2, 7]), r.choice(SUPPORTED)))
+                pay = rand_bytes(r, jj).replace(b"\xd3", b"\x11") + C + rand_bytes(r, r.choice([0, 3])).replace(b"\xd3", b"\x12")
+                B = mk_frame(pay)
+                A = bytes([0xD3, 0x00, LA])
+                g = rand_bytes(r, gap).replace(b"\xd3", b"\x13")
+                out.append(A + g + B)
+                out.append(A + g + B + mk_frame(payload_for(r, 3, 1005)))
+                bad = bytearray(B); bad[-1] ^= 0x40
+                out.append(A + g + bytes(bad))
+                out.append(b"\x00" + A + g + B)
+    return out
